@@ -10,7 +10,7 @@ from ..cfg import CFG, EXIT
 from ..core import Ctx
 from ..flow import AV
 from ..model import AnalysisError, ClassInfo, FuncInfo, dotted, kwarg, norm, walk_no_nested
-from .common import assigned_value, bound_args, enclosing, expand_locals, flat_subscript, pargs, pnorm, prog, resolve_local, view_env
+from .common import assigned_value, bound_args, conditions_at, enclosing, expand_locals, flat_subscript, pargs, pnorm, prog, resolve_local, source_order, view_env
 from .kernels import (SharedKernel, concrete_dissimilarities, extract_d, extract_d_mat, identify, spec_formula, swap12)
 
 CAPTURED = {"delta_empty", "_matrix", "alpha", "beta", "positional_dissim", "categorical_dissim"}
@@ -43,6 +43,67 @@ def array_layout(ctx: Ctx, rule: str) -> None:
             and pargs(M, n.value) and norm(pargs(M, n.value)[-1]).endswith(".annotation")
         ctx.check(ok, rule, f, n, "array field 3 holds the index of the unit's label in the (sorted) category set",
                   bad_detail="array field 3 does not hold the category index", construct="field 3", key="layout3")
+        if ok:
+            # the index space: the dissimilarity's own category table when it has one (d() and the tables of the precomputed kernels are indexed
+            # by it), the argument's category set otherwise
+            call = n.value
+            pa = pargs(M, call) or []
+            space = pa[0] if norm(call.func).split(".")[-1] == "_category_index" and len(pa) == 2 else \
+                (call.func.value if isinstance(call.func, ast.Attribute) and call.func.attr == "index" else None)
+            sp = _index_space(f, space) if space is not None else None
+            if sp is None:
+                ctx.undecided(rule, f, n, "the category set the label index is taken in is not a recognised expression (not a verdict)", key="index-space", construct="index space")
+            else:
+                ctx.check(sp["table"] == f"{f.self_name}.categories", rule, f, n, "the label index is taken in the dissimilarity's own category table when it has one",
+                          bad_detail=f"with a category table (self.categories is not None) the label index is taken in `{sp['table']}`, not in self.categories: the precomputed "
+                                     f"tables and d() are indexed by the dissimilarity's own categories, so a continuum using a subset of them is looked up at shifted cells",
+                          key="index-space", construct="index space")
+
+
+def _index_space(f, space: ast.AST):
+    """{'table': text, 'none': text}: the expression `space` denotes when self.categories is not None / is None"""
+    sn = f.self_name
+
+    def pol(t: ast.AST):
+        # True: test says self.categories is None; False: says it is not None; None: unrelated
+        left = t.left if isinstance(t, ast.Compare) else None
+        if isinstance(left, ast.Name):
+            # a local that starts as self.categories (first, unconditional binding): the test is about the table
+            firsts = [s for s in f.node.body if isinstance(s, ast.Assign) and len(s.targets) == 1 and norm(s.targets[0]) == left.id]
+            if firsts and norm(firsts[0].value) == f"{sn}.categories":
+                left = firsts[0].value
+        if isinstance(t, ast.Compare) and len(t.ops) == 1 and left is not None and norm(left) == f"{sn}.categories" and isinstance(t.comparators[0], ast.Constant) and t.comparators[0].value is None:
+            return True if isinstance(t.ops[0], ast.Is) else (False if isinstance(t.ops[0], ast.IsNot) else None)
+        return None
+
+    def ev(e: ast.AST, depth=0):
+        if depth > 4:
+            return None
+        if isinstance(e, ast.IfExp) and pol(e.test) is not None:
+            a, b = ev(e.body, depth + 1), ev(e.orelse, depth + 1)
+            if a is None or b is None:
+                return None
+            return {"none": a["none"], "table": b["table"]} if pol(e.test) else {"none": b["none"], "table": a["table"]}
+        if isinstance(e, ast.Name):
+            out = {}
+            sts = [s for s in walk_no_nested(f.node) if isinstance(s, ast.Assign) and len(s.targets) == 1 and isinstance(s.targets[0], ast.Name) and s.targets[0].id == e.id]
+            if not sts:
+                return None if e.id not in f.params else {"none": e.id, "table": e.id}
+            order = source_order(f.node)
+            for s in sorted(sts, key=lambda x: order[id(x)]):      # a later binding that applies replaces an earlier one
+                conds = [(pol(t), p) for t, p in conditions_at(f.node, s) if pol(t) is not None]
+                v = ev(s.value, depth + 1)
+                if v is None:
+                    return None
+                for scen in ("none", "table"):
+                    holds = all((p_ == c) if scen == "none" else (p_ != c) for p_, c in [(pp, cc) for pp, cc in conds])
+                    if holds:
+                        out[scen] = v[scen]
+            return out if len(out) == 2 else None
+        if isinstance(e, (ast.Attribute,)):
+            return {"none": norm(e), "table": norm(e)}
+        return None
+    return ev(space)
 
 
 def rule_forms(ctx: Ctx):
